@@ -112,7 +112,7 @@ func (m *Miner) spendableAt(kind int, height uint32) bool {
 
 // txOutKinds: what transactions (not coinbases: the fixed prefix stays as it is) pay to.
 func (m *Miner) txOutKinds(height uint32) []int {
-	k := append(m.outKinds(height), KMultiSep)
+	k := append(m.outKinds(height), KMultiSep, KP2SHZeroMulti)
 	if p := m.L.P; p.SegwitHeight != 0 && height >= p.SegwitHeight {
 		k = append(k, KWshMultiSep)
 	}
